@@ -167,6 +167,21 @@ def run(ctx):
     if st:
         o = fl.ret_origin(prog, st)
         ok = ru.o_has_call(o, "alloc::borrow::Cow::unwrap_or_default", "::unwrap_or_default") and ru.o_has_call(o, "OnceLock::get", "::get")
+        if not ok:
+            # explicit form: Some(s) -> that value, None -> Settings::default()
+            ps_ = [p for p in ru.all_paths(ctx, "C10-c", st, max_visits=1) if p.end == "return"]
+            seen_ = set()
+            ok = bool(ps_)
+            for p in ps_:
+                oc = p.outcomes("OnceLock<T>::get", "::get")
+                seen_.add(tuple(oc[:1]))
+                if oc[:1] == ["Some"]:
+                    ok = ok and expr.mentions(p.ret, lambda v: v[0] == "proj" and "get@" in pa.vfmt(v) and "<Some>" in pa.vfmt(v))
+                elif oc[:1] == ["None"]:
+                    ok = ok and expr.mentions(p.ret, lambda v: v[0] == "call" and v[1].endswith("Default>::default") and "Settings" in v[1])
+                else:
+                    ok = False
+            ok = ok and seen_ == {("Some",), ("None",)}
         ctx.check(ok, "C10-c", st.key, "peer settings or Settings::default()", "settings() returns %s" % fl.fmt(o)[:200], "")
     df = ru.need(ctx, "C10-c", "<h3::config::Settings as core::default::Default>::default")
     if df:
